@@ -24,7 +24,8 @@ def clean():
 def strip(cmd):
     # run the agent's command inside our worktree; we apply/revert patches ourselves
     parts = [x.strip() for x in cmd.split("&&")]
-    keep = [x for x in parts if x and not x.startswith("cd ") and "git apply" not in x
+    keep = [x for x in parts if x and not x.startswith("cd ") and not x.startswith(". ") and not x.startswith("source ")
+            and not x.startswith("export ") and not x.startswith("mkdir ") and not x.startswith("cp ") and "git apply" not in x
             and "git checkout" not in x and "git stash" not in x and "git clean" not in x]
     import re
     keep = [re.sub(r"\b(CARGO_TARGET_DIR|CARGO_HOME|CARGO_NET_OFFLINE)=\S+\s*", "", x) for x in keep]
